@@ -543,10 +543,19 @@ type c03KnownMatcher struct {
 
 // c03Known lists the narrow matchers of open findings (none enabled unless listed as open in known_findings.json).
 var c03Known = []c03KnownMatcher{
-	// dependency antchfx/xpath v1.1.11: functionQuery.Clone dereferences a nil Input for zero-argument functions
-	{id: "c03-xpath-zero-arg-function-clone-panic", match: func(msg string, schema, in []byte) bool {
-		return strings.HasPrefix(msg, "panic in ") && strings.Contains(msg, "nil pointer dereference") &&
-			strings.Contains(msg, "antchfx/xpath.(*functionQuery).Clone")
+	// dependency antchfx/xpath v1.1.11: Select on an expression whose top level is a scalar (zero-argument function,
+	// comparison, arithmetic, boolean) dereferences nil
+	{id: "c03-xpath-scalar-expression-as-query-panics", match: func(msg string, schema, in []byte) bool {
+		if !strings.HasPrefix(msg, "panic in ") || !strings.Contains(msg, "nil pointer dereference") {
+			return false
+		}
+		for _, frame := range []string{"antchfx/xpath.(*functionQuery).Clone", "antchfx/xpath.(*logicalQuery).Select",
+			"antchfx/xpath.(*numericQuery).Select", "antchfx/xpath.(*booleanQuery).Select"} {
+			if strings.Contains(msg, frame) {
+				return true
+			}
+		}
+		return false
 	}},
 }
 
